@@ -783,7 +783,8 @@ func checkC05(c *Ctx, r *Report) {
 	c04ErrorPropagationOID(c, r, mk, "C05.R3")
 	c04ErrorPropagationOID(c, r, pf, "C05.R3")
 	c16ReflectSetRule(c, r, "C05.R4")
-	c16Posts(c, r, "C05.R5")
+	// 6 octets hold 2^48-1, more than any Go slice can be long: the decoder has to accept what the encoder can emit
+	c16PostsW(c, r, "C05.R5", 6)
 	c05IntegerSigned(c, r, "C05.R7")
 	c05DescentOffsets(c, r, "C05.R8")
 	c04DigitCounts(c, r, "C05.R9")
